@@ -137,6 +137,12 @@ class Executor(ResolutionContext):
 
         if isinstance(maybe_type, str):
             return self.schema.get_type(maybe_type)  # type: ignore
+        elif isinstance(maybe_type, ObjectType):
+            # A cloned, extended or transformed schema holds its own copy of
+            # the type the resolver was written against.
+            return self.schema.types.get(  # type: ignore
+                maybe_type.name, maybe_type
+            )
         else:
             return maybe_type
 
